@@ -4,6 +4,10 @@ import json, os
 HERE = os.path.dirname(os.path.dirname(os.path.abspath(__file__)))
 
 CHECKS = {
+ 'C04': dict(level='exploration', ref='3/C04',
+   technique='seeded call histories with mutating / raising consumer bodies and per-producer call counters against a model of reference evaluation; store snapshots (query_parameter + config_str) compared before/after every operation',
+   text='Bindings are value trees (list/tuple/dict to depth 3) over literals and @p, @s/p, @p(), @s/t/p(); consumers are called under ambient scopes with any subset of parameters overridden positionally or by keyword; inside the body every delivered object is checked against the expected tree (fresh producer result with the right scope at entry, registry\'s own callable for @p, a callable that runs under exactly its scope for @s/p), then mutated (and the body may raise); producer counters must rise by exactly the evaluated occurrences in Gin-supplied parameters, and query_parameter / config_str must be unchanged after every call and after mutating the result of get_bindings.',
+   note='Single caller thread; sampled histories.'),
  'C07': dict(level='exploration', ref='3/C07',
    technique='seeded call histories folded by an executable model of the operative record (rule A8), text read back through gin\'s own parser, then replay of the whole history from that text in a reset twin world',
    text='Each run binds literals, evaluated references, macros and non-literal objects (Tok, inf, nan, IntEnum), then calls consumers in any scopes with any caller-supplied / omitted / REQUIRED mix (some bodies raise); the operative text must list exactly the called (scope, configurable) sections and exactly the representable Gin-supplied parameters with their latest values (macros as definitions), and - for a static configuration with only representable values - parsing it in a reset world and repeating the calls must give every call the same arguments and reproduce the text.',
